@@ -30,7 +30,8 @@ META = {
         "(2*k*r^2 + fv*r < fv*fr), otherwise the closed form is complex-valued",
         "trusted: chain rules of vlib/dual.py; ground facts about exp/sqrt/tanh/atanh listed in vlib/ufnorm.py",
     ],
-    "outside": ["'callable with each advertised backend' (a concrete call without symbolic content)",
+    "outside": ["'callable with each advertised backend' other than the default one (a concrete call without symbolic content); the default "
+                "backend (None -> numpy) IS exercised symbolically through numpy's object-dtype loops",
                 "floating-point evaluation error"],
     "trusted_base": ["z3 5.1 NRA", "vlib/dual.py chain rules", "vlib/ufnorm.py ground facts"],
 }
@@ -301,6 +302,11 @@ for j in range(2):
     rs = list(rs) if isinstance(rs, tuple) else [rs]
     for i, v in enumerate(rs):
         if abs(float(v) - r1[i][j]) > 1e-9 * abs(float(v)): bad.append("component %%d at t[%%d]: array evaluation %%r, scalar evaluation %%r" %% (i, j, r1[i][j], float(v)))
+if "backend=be" in call:
+    scope["T"] = float(T_before[0]); scope["be"] = None
+    rd = eval(call, {}, scope); rd = list(rd) if isinstance(rd, tuple) else [rd]
+    for i, v in enumerate(rd):
+        if abs(float(v) - r1[i][0]) > 1e-9 * abs(float(v)): bad.append("component %%d: default backend gives %%r, numpy backend %%r" %% (i, float(v), r1[i][0]))
 for b in bad: print("MISMATCH", b)
 sys.exit(1 if bad else 0)
 '''
@@ -340,6 +346,14 @@ def ob_array(name, nval=1, seed=0):
             scope["T"] = tj
             rs = eval(call, {}, scope)
             scal.append(list(rs) if isinstance(rs, tuple) else [rs])
+        # the default backend (backend=None -> numpy; its object-dtype loops call .exp()/.sqrt()/... of the symbols): same closed form
+        rdef = None
+        if "backend=be" in call:
+            scope["be"] = None
+            scope["T"] = orig[0]
+            rd = eval(call, {}, scope)
+            rdef = list(rd) if isinstance(rd, tuple) else [rd]
+            scope["be"] = be
     except Exception as e:
         from vlib.zrun import wrapper_exc
 
@@ -359,6 +373,9 @@ def ob_array(name, nval=1, seed=0):
             goals.append(("repeat", term(r2[i][j]) == term(r1[i][j])))
     for a_, b_ in zip(after, orig):
         goals.append(("untouched", term(a_) == term(b_)))
+    if rdef is not None:
+        for i in range(len(rdef)):
+            goals.append(("default_backend", term(rdef[i]) == term(scal[0][i])))
     res["obligations"] = len(goals)
     bad = None
     for kind, g in goals:
@@ -376,7 +393,8 @@ def ob_array(name, nval=1, seed=0):
     if bad:
         res["violations"].append(dict(key="%s.array.%s" % (name, bad), soft=True,
                                       desc="%s on a time grid: %s" % (name, {"untouched": "the caller's array was modified", "scalar": "differs from the scalar evaluation",
-                                                                              "repeat": "second evaluation on the same array differs"}[bad]),
+                                                                              "repeat": "second evaluation on the same array differs",
+                                                                              "default_backend": "the default backend (backend=None) gives another closed form"}[bad]),
                                       replay_src=_arr_replay(name, nval, spec, call)))
     res["solver_s"] = time.time() - t0_
     res["status"] = "violation" if res["violations"] else ("inconclusive" if res["inconclusive"] else "discharged")
